@@ -35,7 +35,7 @@ pub fn get(id: &str, tier: Tier) -> Option<PropertyDef> {
             id: "C16",
             rule: "A (library): StreamContext::from + sequences of process_stream_new_msgs driven like the server loop with generated growth of the message list (batches 0..n), chunk sizes 1..3000, stream vs query, windows and window changes; invariants after every call: filtered_msgs strictly increasing and equal to the reference matching positions below the processed marker, bounded progress until caught up, window content. B (binary, websocket): generated logs (5..3600 messages), filter sets via JSON, windows (empty, beyond the end, proper sub ranges), stream/query, binary/text mode, window changes, search paging (all page sizes/start positions), index/time lookups, arrival varied by pause/resume and the parser throttle hook; oracle: delivered messages of stream id X = positions [start, min(end,len)) of the reference filtered sequence with all fields equal to the file, only after the reply announcing X, queries terminated by the empty frame (prefix-correctness only while parsing runs), union of search pages = matching positions with advancing continuation, lookups = first position not before the requested one. Non-trivial: filter keeps 10..90% and the window is a proper sub range, or >=2 search pages, or >=1 window change.",
             assumptions: vec!["queries issued while parsing is still running may end early (10 ms poll): only prefix-correctness is asserted then", "time lookups only on logs with strictly increasing calculated times"],
-            subs: vec![c16a::def_sub(tier), c16b::def_sub(tier), c16c::def_sub(tier), c16c::def_sub_large(tier)],
+            subs: vec![c16a::def_sub(tier), c16b::def_sub(tier), c16c::def_sub(tier), c16c::def_sub_large(tier), c16c::def_sub_many(tier)],
             workers: 16,
         }),
         "C17" => Some(c17::def(tier)),
